@@ -112,6 +112,8 @@ type vconc struct {
 	strs   []string
 	intExt map[int]int
 	fltExt map[int]float64
+	// derivedElems: O/L tokens are user types embedding Object/List (they are Objects/Lists for every typed view)
+	derivedElems bool
 }
 
 var vstrs = []string{"", "A", "a", "ab", "b", "ž", "😀"}
@@ -188,6 +190,11 @@ func (c *vconc) val(t vtok) any {
 		} else {
 			o = at.NewObject("id", t.V)
 		}
+		if c.derivedElems {
+			d := &dObj{Object: o}
+			d.Init(d)
+			o = d
+		}
 		c.objs[t.V] = o
 		return o
 	case "L":
@@ -199,6 +206,11 @@ func (c *vconc) val(t vtok) any {
 			l = at.NewList()
 		} else {
 			l = at.NewList(t.V)
+		}
+		if c.derivedElems {
+			d := &dList{List: l}
+			d.Init(d)
+			l = d
 		}
 		c.lists[t.V] = l
 		return l
@@ -296,6 +308,8 @@ type tag struct {
 // checkViews: C14 on one list.
 func checkViews(r *listRec, how int) error {
 	c := newVconc("id", 0)
+	c.derivedElems = how >= 4
+	how = how % 4
 	vals := make([]any, len(r.List))
 	for i, t := range r.List {
 		vals[i] = c.val(t)
@@ -962,7 +976,7 @@ func runViewsRecord(family string, r *listRec, seed int64, count *int64) (string
 	}
 	switch family {
 	case "views":
-		for how := 0; how < 4; how++ {
+		for how := 0; how < 6; how++ {
 			how := how
 			if !run(fmt.Sprintf("build=%d", how), func() error { return checkViews(r, how) }) {
 				return failVariant, fail
